@@ -26,18 +26,27 @@ import (
 	"verif/internal/report"
 )
 
-// address-space cap of one worker (ulimit -v, KiB). 16 workers x 2 GiB stays
-// well inside the machine even if every worker touches all it may map.
-const vmemCapKiB = 2097152
+// address-space cap of one worker (ulimit -v, KiB): 1 GiB. The Go runtime
+// itself reserves about 0.6 GiB of address space, which leaves roughly 0.4 GiB
+// of heap: six times the allocation budget, and an allocation sized from a
+// hostile count fails at once instead of being zeroed and scanned.
+const vmemCapKiB = 1048576
 
 // a group is abandoned (remaining cases not run, evidence says so) after this
 // many failures: the defect is established and every further failing case
 // costs up to seconds (address-space exhaustion, watchdog)
 const (
-	maxFailuresPerGroup = 24
+	maxFailuresPerGroup = 16
 	maxTimeoutsDense    = 1 // bytes / text / tok universes: neighbours fail alike
-	maxTimeoutsOther    = 4
 )
+
+// other universes: 1 in the quick tier, 4 in the thorough tier
+func maxTimeoutsOther() int {
+	if report.Tier() == "thorough" {
+		return 4
+	}
+	return 1
+}
 
 type failure struct {
 	g      *group
@@ -52,23 +61,6 @@ type failure struct {
 
 func (f failure) fp() string {
 	return report.FPEscape(f.g.t.entry + "/" + f.class + "/" + f.site)
-}
-
-// timeSite: the site of a time violation is the generator of the input (the
-// nesting family, or universe and sub-case), which is deterministic; stack
-// samples of a spinning goroutine are biased by preemption points.
-func timeSite(g *group) string {
-	if g.kind == "family" {
-		return g.label
-	}
-	l := g.t.sub
-	if l == "" {
-		l = g.label
-		if i := strings.LastIndex(l, "#"); i >= 0 {
-			l = l[:i]
-		}
-	}
-	return g.kind + ":" + l
 }
 
 // ------------------------------------------------------------ worker process
@@ -107,7 +99,7 @@ var (
 
 func startProc() (*proc, error) {
 	cmd := exec.Command("sh", "-c", fmt.Sprintf(`ulimit -v %d; exec "$0" -worker`, vmemCapKiB), self)
-	cmd.Env = append(os.Environ(), "GOMAXPROCS=1", "VERIF_TIER="+report.Tier(), "GODEBUG=profstackdepth=512")
+	cmd.Env = append(os.Environ(), "GOMAXPROCS=1", "VERIF_TIER="+report.Tier(), "GODEBUG=")
 	in, err := cmd.StdinPipe()
 	if err != nil {
 		return nil, err
@@ -283,8 +275,8 @@ func runSegment(p *proc, g *group, lo, hi int, s sink, budget time.Duration, sto
 					idx, _ = strconv.Atoi(f[1])
 					seen = f[2]
 				}
-				s.onFail(failure{g: g, idx: idx, class: "time>budget", site: timeSite(g), ns: int64(budget), seenIn: seen,
-					msg: fmt.Sprintf("still running after %v (watchdog saw it in %s)", budget, seen)})
+				s.onFail(failure{g: g, idx: idx, class: "time>budget", site: seen, ns: int64(budget), seenIn: seen,
+					msg: fmt.Sprintf("still running after %v in %s", budget, seen)})
 				s.onCase(idx, 0, int64(budget), "killed:time>budget")
 				p.kill()
 				return idx + 1, false, nil
@@ -311,7 +303,7 @@ func runSegment(p *proc, g *group, lo, hi int, s sink, budget time.Duration, sto
 				if last < 0 {
 					return lo, false, fmt.Errorf("worker unresponsive outside a case")
 				}
-				s.onFail(failure{g: g, idx: last, class: "time>budget", site: timeSite(g), seenIn: "unresponsive", msg: "worker unresponsive, killed by the parent"})
+				s.onFail(failure{g: g, idx: last, class: "time>budget", site: "unresponsive", seenIn: "unresponsive", msg: "worker unresponsive, killed by the parent"})
 				s.onCase(last, 0, 0, "killed:time>budget")
 				return last + 1, false, nil
 			}
@@ -382,6 +374,9 @@ func (st *state) onCase(g *group, idx int, alloc uint64, ns int64, class string)
 	if ns > st.maxNs && !killed {
 		st.maxNs, st.maxNsC = ns, fmt.Sprintf("%s#%d", g.name(), idx)
 	}
+	if ns > 300e6 || killed {
+		g.slow.Store(true)
+	}
 	if !emptyInput(g, idx) {
 		key := g.t.entry + "|" + g.t.sub + "|" + class
 		if !st.classes[key] {
@@ -410,6 +405,7 @@ func (st *state) onFail(f failure) {
 		gs.firstFail = f.idx + 1
 	}
 	gs.fails++
+	f.g.slow.Store(true)
 	if f.class == "time>budget" {
 		gs.timeFails++
 	}
@@ -417,7 +413,7 @@ func (st *state) onFail(f failure) {
 	if g.monotone || g.abandoned.Load() {
 		return
 	}
-	maxT := maxTimeoutsOther
+	maxT := maxTimeoutsOther()
 	if g.kind == "bytes" || g.kind == "text" || g.kind == "tok" {
 		maxT = maxTimeoutsDense
 	}
@@ -436,11 +432,13 @@ func (st *state) onFail(f failure) {
 type job struct {
 	g      *group
 	lo, hi int
+	prio   int
 }
 
 type scheduler struct {
 	mu       sync.Mutex
 	jobs     []job
+	deferred []job // jobs of groups flagged slow, served after all others
 	cur      int
 	deadline time.Time
 	timedOut bool
@@ -459,7 +457,23 @@ func (s *scheduler) next() *job {
 		if j.g.abandoned.Load() {
 			continue
 		}
+		if j.g.slow.Load() && !j.g.monotone {
+			s.deferred = append(s.deferred, *j)
+			continue
+		}
 		return j
+	}
+	for len(s.deferred) > 0 {
+		if time.Now().After(s.deadline) {
+			s.timedOut = true
+			return nil
+		}
+		j := s.deferred[0]
+		s.deferred = s.deferred[1:]
+		if j.g.abandoned.Load() {
+			continue
+		}
+		return &j
 	}
 	return nil
 }
@@ -481,7 +495,7 @@ func workerLoop(s *scheduler, st *state, budget time.Duration, wg *sync.WaitGrou
 		g := j.g
 		pos := j.lo
 		for pos < j.hi && !g.abandoned.Load() {
-			if time.Now().After(s.deadline.Add(30 * time.Second)) {
+			if time.Now().After(s.deadline.Add(12 * time.Second)) {
 				break
 			}
 			if p == nil {
@@ -494,7 +508,7 @@ func workerLoop(s *scheduler, st *state, budget time.Duration, wg *sync.WaitGrou
 			next, alive, err := runSegment(p, g, pos, j.hi, sink{
 				onCase: func(idx int, a uint64, ns int64, c string) { st.onCase(g, idx, a, ns, c) },
 				onFail: st.onFail,
-			}, budget, func() bool { return g.abandoned.Load() || time.Now().After(s.deadline.Add(30*time.Second)) })
+			}, budget, func() bool { return g.abandoned.Load() || time.Now().After(s.deadline.Add(12*time.Second)) })
 			if err != nil {
 				engineErr(err)
 			}
@@ -566,6 +580,7 @@ func listedFindings() map[string]bool {
 }
 
 type conf struct {
+	others    []string // fingerprints seen instead while re-running
 	fp        string
 	cands     []failure // candidates, minimal first
 	confirmed *failure
@@ -667,20 +682,24 @@ func main() {
 			if hi > g.n {
 				hi = g.n
 			}
-			jobs = append(jobs, job{g, lo, hi})
+			pr := g.priority
+			if g.kind == "mut1" && lo/g.chunk >= mutCheap {
+				pr = 6 // the value blocks that make count-driven loops long come last
+			}
+			jobs = append(jobs, job{g, lo, hi, pr})
 		}
 	}
 	sort.SliceStable(jobs, func(i, j int) bool {
 		a, b := jobs[i], jobs[j]
-		if a.g.priority != b.g.priority {
-			return a.g.priority < b.g.priority
+		if a.prio != b.prio {
+			return a.prio < b.prio
 		}
 		if ca, cb := a.lo/a.g.chunk, b.lo/b.g.chunk; ca != cb {
 			return ca < cb
 		}
 		return a.g.id < b.g.id
 	})
-	enumBudget := 50 * time.Second
+	enumBudget := 45 * time.Second
 	if tier == "thorough" {
 		enumBudget = 12 * time.Minute
 	}
@@ -750,6 +769,7 @@ func main() {
 				}
 				tried[key] = true
 				same, other := confirm5(c.fp, f.g, idx, budget, sem)
+				c.others = append(c.others, other...)
 				c.tried = append(c.tried, fmt.Sprintf("%s#%d: %d/5 %v", f.g.name(), idx, same, other))
 				if same == 5 {
 					c.confirmed, c.runIdx = &c.cands[k], idx
@@ -762,8 +782,29 @@ func main() {
 		}()
 	}
 	cwg.Wait()
+	established := map[string]bool{}
+	for _, c := range confs {
+		if c.confirmed != nil {
+			established[c.fp] = true
+		}
+	}
+	var reattributed []string
 	for _, c := range confs {
 		if c.confirmed == nil {
+			// the same cases, re-run alone, consistently show other fingerprints
+			// that are established (listed or confirmed): the observation under
+			// load was a different face of those defects (e.g. address space
+			// exhausted before the watchdog fired), not a finding of its own
+			ok := len(c.others) > 0
+			for _, o := range c.others {
+				if !established[o] {
+					ok = false
+				}
+			}
+			if ok {
+				reattributed = append(reattributed, fmt.Sprintf("%s -> %v", c.fp, uniq(c.others)))
+				continue
+			}
 			chk.EngineError("fingerprint %s was observed in %d cases but no candidate reproduced it 5/5 alone in a fresh worker (%v): not reported as a violation",
 				c.fp, len(c.cands), c.tried)
 			continue
@@ -835,8 +876,8 @@ func main() {
 			"for every valid encoding e of the corpus (built with the repository's writers) Mut(e) = every offset x 9 values {0,1,0x7fffffff,0x80000000,0xffffffff,4096,4097,10MiB,10MiB+1} " +
 			"(thorough: also all pairs of non-overlapping offsets for encodings of 8..48 bytes) and Cut(e) = every strict prefix; " +
 			"signature.Parse: all strings of length <= 4|5 over the 16-symbol grammar alphabet; idl.ParsePackage: all sequences of <= 3|4 of 29 IDL tokens; " +
-			"nesting families in increasing depth 1..64, each up to the first depth that kills its worker. A group (entry point x universe x corpus item) is abandoned, and listed, after 24 failing cases or after " +
-			"1 (Bytes/text/token universes) or 4 (others) cases over the time budget. Oracle per case: no panic, no fatal error, TotalAlloc delta <= 64MiB + 64*len(input), still running after 10s = violation. " +
+			"nesting families in increasing depth 1..64, each up to the first depth that kills its worker. The chunks of a group that produced a failure or a case slower than 300 ms are run after all other groups. A group (entry point x universe x corpus item) is abandoned, and listed, after 16 failing cases or after " +
+			"1 (Bytes/text/token universes; every universe in the quick tier) or 4 (other universes, thorough tier) cases over the time budget. Mut groups are enumerated value-major and the three values that make count-driven loops long (10MiB, 10MiB+1, 0x7fffffff) are scheduled last. Oracle per case: no panic, no fatal error, TotalAlloc delta <= 64MiB + 64*len(input), still running after 10s = violation. " +
 			"distinct_nontrivial = number of distinct (entry point, sub-case, normalised outcome) triples observed on non-empty inputs, " +
 			"where the outcome is 'accepted' or the returned error text with the echoed input and all digits removed (first 60 characters), or the violation class",
 		"samples":                            st.samples,
@@ -858,11 +899,12 @@ func main() {
 		"enumeration_s":                      enumS,
 		"confirmation_s":                     time.Since(start).Seconds() - enumS,
 		"deadline_hit":                       sched.timedOut,
+		"reattributed_observations":          reattributed,
 	}
 	assumptions := []string{
 		"small-scope hypothesis: hostile inputs are the stated byte strings of length <= L, single (thorough: double) 4-byte field mutations and prefixes of valid encodings, and short token sequences; longer random inputs are not explored",
-		"the allocation account is runtime.MemStats.TotalAlloc (cumulative bytes allocated, an upper bound of the memory in use) around the call in a GOMAXPROCS=1 worker; the allocation site is the innermost repository function on the stack of >= 90% of the bytes in the heap profile, or the first repository frame of the crash trace",
-		"the time oracle is a 10 s wall-clock watchdog against microsecond-scale normal cost; the site of a time violation is the generator of the input (family or universe:sub-case)",
+		"the allocation account is runtime.MemStats.TotalAlloc (cumulative bytes allocated, an upper bound of the memory in use) around the call in a GOMAXPROCS=1 worker; when the average object allocated by the case is >= 256 KiB the allocation site is the first repository frame of the heaviest heap-profile record (or of the crash trace), otherwise the site is 'many-small'",
+		"the time oracle is a 10 s wall-clock watchdog against microsecond-scale normal cost; the site of a time violation is the innermost repository function present in every CPU-profiler sample (3 s at 100 Hz) of the spinning goroutine, or 'deep-recursion' when the samples exceed the profiler's 64-frame limit",
 		"the generated ServiceDirectory stub is driven with a fake implementor; action 109 (_socketOfService, unexported) is excluded; stubServiceZero.Authenticate is unreachable from outside package bus (action 8 is intercepted by the generic object) and is not driven",
 		"readers are in-memory (bytes.Reader): read fragmentation is C01's subject",
 		"fingerprints listed in known-findings.txt are reported from the enumeration's observation; unlisted fingerprints are reported only if a witness reproduces 5/5 alone in a fresh worker",
@@ -874,6 +916,19 @@ func main() {
 	}
 	procsMu.Unlock()
 	os.Exit(code)
+}
+
+func uniq(xs []string) []string {
+	m := map[string]bool{}
+	var out []string
+	for _, x := range xs {
+		if !m[x] {
+			m[x] = true
+			out = append(out, x)
+		}
+	}
+	sort.Strings(out)
+	return out
 }
 
 func subOf(g *group) string {
